@@ -240,6 +240,15 @@ def translate(repo):
         if n not in pseudo_names: raise TranslateError('PseudoFs no longer overrides %s' % n)
     pa = norm(dict((m[0], m) for m in pseudo)['access'][2])
     if pa != '{Ok(())}': raise TranslateError('PseudoFs::access is not Ok(()): %s' % pa)
+    # the wrapper every Server holds the Vfs in: impl<FS: FileSystem> FileSystem for Arc<FS> must forward every trait method
+    # (a missing forwarder silently falls back to the trait default, e.g. id_remap_with_nodeid -> global mapping only)
+    fsrc = rd('src/api/filesystem/sync_io.rs')
+    arc = dict((m[0], m) for m in methods_of(find_block(fsrc, r'impl<FS:\s*FileSystem>\s*FileSystem\s+for\s+Arc<FS>\s*\{')))
+    t['arc_forwards'] = []
+    for (mname, _p, _b, _c, _r) in trait:
+        if mname not in arc or not re.search(r'\.%s\(' % mname, norm(arc[mname][2] or '')):
+            t['errors'].append('impl FileSystem for Arc<FS> does not forward %s: a Vfs held in an Arc answers it with the trait default' % mname)
+        else: t['arc_forwards'].append(mname)
     # the async twin: impl AsyncFileSystem for Vfs (feature async-io) re-implements some of the methods
     asrc = rd('src/api/vfs/async_io.rs')
     amethods = methods_of(find_block(asrc, r'impl\s+AsyncFileSystem\s+for\s+Vfs\s*\{'))
